@@ -64,9 +64,19 @@ impl Datastore {
             what: format!("{file} in datastore"),
             path: path.clone(),
         })?;
-        tokio::fs::write(&path, bytes)
-            .await
-            .context(error::DatastoreCreateSnafu { path: &path })
+        // Write the new contents next to the file and move them into place: a crash or a failed
+        // write must not leave a truncated file where previously trusted metadata was, or the
+        // rollback checks that rely on it would silently be skipped. (The write lock is held, so
+        // the fixed temporary name cannot be used by two writers at once.)
+        let tmp_path = lock.path().join(format!("{file}.tmp"));
+        let result = match tokio::fs::write(&tmp_path, bytes).await {
+            Ok(()) => tokio::fs::rename(&tmp_path, &path).await,
+            Err(err) => Err(err),
+        };
+        if result.is_err() {
+            let _ = tokio::fs::remove_file(&tmp_path).await;
+        }
+        result.context(error::DatastoreCreateSnafu { path: &path })
     }
 
     /// Deletes a file from the datastore. This function is thread safe.
